@@ -49,4 +49,8 @@ m = {
     'notes': 'See DESIGN.md. Exit 2 = infrastructure error (never a verdict). Known findings: known_findings.json.',
 }
 json.dump(m, open(os.path.join(HERE, 'MANIFEST.json'), 'w'), indent=1)
+for pid in ALL:
+    f = os.path.join(HERE, 'evidence', pid + '.json')
+    if pid not in [c['property_id'] for c in checks] and os.path.exists(f):
+        os.remove(f)
 print('claimed:', [c['property_id'] for c in checks])
